@@ -55,7 +55,10 @@ func (check *Checker) processTypeOperators() {
 
 		if info := astutil.ParseCommentInfo(typName.NodeDoc()); len(info.Operator) != 0 {
 			for _, ops := range info.Operator {
-				assert(len(ops) > 1)
+				if len(ops) < 2 {
+					check.errorf(obj.Pos(), "%s operator directive needs an operator and at least one function", obj.Name())
+					continue
+				}
 
 				// 这里只是查询到重载的全局函数, 并未做合法性验证
 				funcs, err := check.lookupOperatorFuncs(typName.Pkg(), ops[1:]...)
